@@ -58,6 +58,13 @@ def rich_structs():
             F(1, "required", T("In"), "a"), F(2, "default", T("U"), "u"), F(3, "default", T("map", T("string"), T("In")), "m")]},
         {"k": "struct", "name": "Sparse", "fields": [
             F(-2, "default", T("i32"), "neg"), F(300, "optional", T("i64"), "far"), F(32767, "required", T("bool"), "last")]},
+        # defaults inside elements: a reader that does not start elements from their defaults loses them
+        {"k": "struct", "name": "Dflt", "fields": [
+            F(1, "default", T("i32"), "a", {"i": 7}), F(2, "optional", T("string"), "b", {"s": "hi"}),
+            F(3, "optional", T("E"), "e", {"id": "E.B"}), F(4, "optional", T("i64"), "c")]},
+        {"k": "struct", "name": "DL", "fields": [
+            F(1, "default", T("list", T("Dflt")), "l"), F(2, "default", T("map", T("string"), T("Dflt")), "m"),
+            F(3, "default", T("Dflt"), "d"), F(4, "optional", T("Dflt"), "o"), F(5, "default", T("set", T("Dflt")), "s")]},
         {"k": "struct", "name": "Req3", "fields": [
             F(1, "required", T("i32"), "a"), F(2, "required", T("string"), "b"), F(3, "required", T("list", T("i32")), "c")]},
     ]
@@ -111,7 +118,7 @@ def present_include(prog):
     """E, In and the rich struct-likes move to an included file with another namespace; references get the prefix."""
     p = copy.deepcopy(prog)
     f0 = p["files"][0]
-    moved = {"E", "In"}
+    moved = {"E", "In", "Dflt"}
     inc = {"path": "inc/b.thrift", "namespaces": [{"lang": "go", "name": "u.inc"}],
            "defs": [d for d in f0["defs"] if d["name"] in moved]}
     f0["defs"] = [d for d in f0["defs"] if d["name"] not in moved]
@@ -127,6 +134,7 @@ def present_include(prog):
                 fl["type"] = _map_types(fl["type"], fix)
                 if fl.get("default") and "id" in fl["default"] and fl["default"]["id"].startswith("E."):
                     fl["default"] = {"id": "b." + fl["default"]["id"]}
+    # (defaults of the moved struct-likes themselves keep their local spelling: E moved along with them)
     p["files"].append(inc)
     return p
 
